@@ -177,3 +177,39 @@ Proof.
   intros l w. rewrite Hm. exact (C04_prefix_iter d rs h H1 H2 l w).
 Qed.
 Print Assumptions C04_source_prefix_iter.
+
+(* explicit creation on the translated Traph.create_webentity (GenTraphW.v): for EVERY history, from the RAM header and trie
+   storage holding the state reached, the request is refused (None = TraphException) exactly when one of its prefixes is already
+   attached in the SPECIFICATION's prefix map; otherwise it attaches its prefixes (each once) to ONE new id, the specification's
+   next id, and leaves the storage holding the trie file of the model's next state *)
+From Traph Require GenTraphW GenTraphWDefs GenTraphWFacts.
+Theorem C04_source_create : forall d rs h ps, wf_rules rs -> Forall wf_op h -> wf_op (OCreate ps) ->
+  let s := run d rs h in let a := srun d rs h in
+  forall hd sg, GenTraphWDefs.hrep s hd sg ->
+  nb (fst (Ops.step s (OCreate ps))) * 128 < 2 ^ 64 -> lastwe s + 1 < 2 ^ 32 ->
+  (GenTraphW.py_traph_create_webentity hd sg ps = None <-> existsb (fun p => amem p (a_pref a)) ps = true) /\
+  (existsb (fun p => amem p (a_pref a)) ps = false ->
+   exists hd' sg', GenTraphW.py_traph_create_webentity hd sg ps = Some (hd', sg', (Some (a_last a + 1), dedup_bytes ps [])) /\
+     GenTraphWDefs.hrep (fst (Ops.step s (OCreate ps))) hd' sg').
+Proof.
+  intros d rs h ps H1 H2 Ho s a hd sg Hrep Hsz Hlt.
+  pose proof (StoreFacts2.run_Inv18 d rs h H2) as Hinv. fold s in Hinv.
+  pose proof (StoreFacts2.run_root_first d rs h) as Hroot. fold s in Hroot.
+  pose proof (C04_refuse_create d rs h ps H1 H2 Ho) as [Hr Hc]. cbv zeta in Hr, Hc. fold s a in Hr, Hc.
+  pose proof (GenTraphWFacts.py_traph_create_webentity_spec s Hinv Hroot hd sg ps Hrep (proj2 Ho) Hsz Hlt) as H.
+  cbv zeta in H. cbn [Ops.step] in Hr, Hc, Hsz |- *. unfold create_webentity in Hr, Hc, Hsz, H |- *.
+  destruct (add_prefixes ps false s) as [s1 [| |w valid]]; cbn [fst snd] in *.
+  - split; [split; [intros _; apply Hr; reflexivity|intros _; exact H]|].
+    intros Hf. apply Hc in Hf. discriminate Hf.
+  - split.
+    + split.
+      * intros E. destruct H as (hd' & sg' & E' & _). rewrite E' in E. discriminate E.
+      * intros Hx. apply Hr in Hx. discriminate Hx.
+    + intros Hf. apply Hc in Hf. discriminate Hf.
+  - split.
+    + split.
+      * intros E. destruct H as (hd' & sg' & E' & _). rewrite E' in E. discriminate E.
+      * intros Hx. apply Hr in Hx. discriminate Hx.
+    + intros Hf. apply Hc in Hf. injection Hf as <- <-. exact H.
+Qed.
+Print Assumptions C04_source_create.
